@@ -147,8 +147,22 @@ def run_history(sc: dict) -> dict:
 
         bus.on(X, h)
 
+        def unfinished():
+            """accepted events that have not left their handler; an event whose handler was refused by the recursion guard
+            (error result recorded without the handler ever running) counts as finished"""
+            out_ = []
+            for t, s_ in state.items():
+                if s_ == 'done':
+                    continue
+                e = events[t]
+                if s_ == 'queued' and entered[t] == 0 and e.event_results and all(r.status == 'error' for r in e.event_results.values()):
+                    state[t] = 'done'
+                    continue
+                out_.append(t)
+            return out_
+
         async def idle_call(timeout, rec):
-            rec['busy_at_call'] = any(s != 'done' for s in state.values())
+            rec['busy_at_call'] = bool(unfinished())
             rec['t0'] = T()
             try:
                 if timeout is None:
@@ -161,7 +175,7 @@ def run_history(sc: dict) -> dict:
             except BaseException as ex:  # noqa
                 rec['exc'] = type(ex).__name__
             rec['t1'] = T()
-            rec['notdone'] = [t for t, s in state.items() if s != 'done']
+            rec['notdone'] = unfinished()
             if timeout is None and rec['notdone']:
                 viol.append(('C15.a', f'wait_until_idle() returned at t={T():g} while events {rec["notdone"][:8]} accepted earlier were still {[state[t] for t in rec["notdone"][:8]]}'))
 
@@ -197,7 +211,7 @@ def run_history(sc: dict) -> dict:
         silent = 0.0
         while True:
             await asyncio.sleep(0.25)
-            quiet = st['running'] == 0 and all(s == 'done' for s in state.values())
+            quiet = st['running'] == 0 and not unfinished()
             if quiet and T() - st['last_activity'] >= 0.5:
                 break
             if T() - st['last_activity'] > 30:
